@@ -426,6 +426,35 @@ def run(ctx):
             if reg0 is not None and reg0 != Form.num(sd % 128):
                 probs.append(f"seed={sd} starts the register at {reg0!r}, not seed mod 2^7")
     ctx.check("C04.5", not probs, fi, where, "PRBS: zero seed -> 1 with a warning", "seed = 0 mod 2^order replaced by 1 with a UserWarning; other seeds used as given (classes 0, 2^n, interior, all-ones)", "; ".join(probs[:3]))
+    # "for every call": the sequence, the returned state and the zero-seed warning depend on the arguments of THIS call only.  A
+    # module-level container that PRBS both reads and updates (a warned-already set, a cache of registers) makes a later call
+    # behave differently from the first - e.g. the documented warning issued once per order and never again.
+    mod_tree = pkg.module("devices").tree if hasattr(pkg.module("devices"), "tree") else None
+    if mod_tree is None:
+        import ast as _ast
+        mod_tree = _ast.parse(pkg.module("devices").source)
+    containers = {}
+    for st_ in mod_tree.body:
+        if isinstance(st_, ast.Assign) and len(st_.targets) == 1 and isinstance(st_.targets[0], ast.Name):
+            v_ = st_.value
+            if isinstance(v_, (ast.Set, ast.List, ast.Dict)) or (isinstance(v_, ast.Call) and isinstance(v_.func, ast.Name) and v_.func.id in ("set", "list", "dict", "defaultdict", "OrderedDict", "deque")):
+                containers[st_.targets[0].id] = st_
+    local_names = {a_.arg for a_ in fi.node.args.args + fi.node.args.kwonlyargs} | {t_.id for n_ in ast.walk(fi.node) if isinstance(n_, ast.Assign) for t_ in n_.targets if isinstance(t_, ast.Name)}
+    stateful = []
+    for n_ in ast.walk(fi.node):
+        nm = None
+        if isinstance(n_, ast.Call) and isinstance(n_.func, ast.Attribute) and isinstance(n_.func.value, ast.Name) and n_.func.attr in ("add", "append", "update", "setdefault", "extend", "insert", "pop", "remove", "discard", "clear", "appendleft"):
+            nm = n_.func.value.id
+        elif isinstance(n_, (ast.Assign, ast.AugAssign)):
+            for t_ in (n_.targets if isinstance(n_, ast.Assign) else [n_.target]):
+                if isinstance(t_, ast.Subscript) and isinstance(t_.value, ast.Name):
+                    nm = t_.value.id
+        elif isinstance(n_, ast.Global):
+            nm = n_.names[0]
+        if nm and nm in containers and nm not in local_names:
+            stateful.append((nm, n_))
+    ctx.check("C04.5", not stateful, fi, stateful[0][1] if stateful else fi.node, "PRBS keeps no state between calls", "no module-level container is updated by a call",
+              f"PRBS updates the module-level `{stateful[0][0]}` ({src_of(stateful[0][1])[:60]}): what a call does (here: whether the zero-seed warning is issued) depends on the calls made before it" if stateful else "")
     ctx.require_min("C04.1", 7)
     ctx.require_min("C04.2", 7)
     ctx.require_min("C04.3", 21)
